@@ -15,7 +15,9 @@ def pureE : X.Expr → Bool
   | .bin _ l r => pureE l && pureE r
   | _ => false
 
-/-- `ConstProp` on a call-free expression, given the constant each name denotes (`lookupVal`). -/
+mutual
+/-- `ConstProp` on an expression without `val`-named system calls, given the constant each name
+    denotes (`lookupVal`). -/
 def annotate (ρ : String → Option Word) : X.Expr → AExpr
   | .num v => .num v (some v)
   | .bool b => .bool b (some (Xcmp.b2w b))
@@ -28,8 +30,16 @@ def annotate (ρ : String → Option Word) : X.Expr → AExpr
        | _, _ => none)
   | .str bs => .str bs
   | .sub n _ => .sub n (.num 0 none)            -- outside the fragment
-  | .call f _ => .call (-1) f []                -- outside the fragment
+  | .call f args => .call (-1) f (annotateL ρ args)
   | .syscall _ _ => .call (-1) "" []            -- outside the fragment
+def annotateL (ρ : String → Option Word) : List X.Expr → List AExpr
+  | [] => []
+  | e :: es => annotate ρ e :: annotateL ρ es
+end
+
+theorem annotateL_map (ρ : String → Option Word) : ∀ (es : List X.Expr), annotateL ρ es = es.map (annotate ρ)
+  | [] => by simp [annotateL]
+  | e :: es => by simp [annotateL, annotateL_map ρ es]
 
 /-- Code generation for a constant-annotated tree is `genConst` of its value. -/
 theorem genExpr_annot_const (ctx : Xcmp.Ctx) (ρ : String → Option Word) (e : X.Expr) (c : CInt) (reg : Reg)
